@@ -443,6 +443,7 @@ func init() {
 }
 
 func runC14(c *Cfg) {
+	runSpecial(c, "C14", "keys-append-isolation")
 	r := c.Rep
 	var stuckSeen atomic.Bool
 	n := c.Pick(8000, 500000)
